@@ -26,7 +26,7 @@ RULE = ('programs x sequences of K<=2 control messages {rpc pause/play/kill/stat
 ASSUMPTIONS = ['the RabbitMQ transport itself is replaced by an in-process communicator that follows its observable protocol (pv/comm.py)',
                'an exception raised by a handler may reach the sender wrapped in RemoteException']
 REQUIRED = ['handlers_ran', 'twin_compared', 'replies_compared', 'announcements_checked', 'intent/pause', 'intent/play', 'intent/kill', 'intent/status',
-            'via/rpc', 'via/bcast', 'wrap/raw', 'wrap/loop', 'broadcast_faults', 'after_termination_checks', 'in_step_deliveries', 'idle_deliveries', 'idle_thread_runs', 'dropped_replies']
+            'via/rpc', 'via/bcast', 'wrap/raw', 'wrap/loop', 'broadcast_faults', 'after_termination_checks', 'in_step_deliveries', 'idle_deliveries', 'idle_thread_runs', 'dropped_replies', 'recreated_terminal_checks']
 BOUNDS = {'quick': '6 programs, K<=2 messages (K=2 sampled 1/3), all broadcast fault points', 'thorough': '14 programs + thread-mode delivery (400 runs)'}
 MSGS = [['rpc', 'pause', 'rp'], ['rpc', 'play', None], ['rpc', 'kill', 'rk'], ['rpc', 'status', None], ['bcast', 'pause', 'bp'], ['bcast', 'play', None],
         ['bcast', 'kill', 'bk']]
@@ -151,6 +151,23 @@ class CommRun(lifecycle.Run):
             self.ctl.kill_all('late')
             self.drv.pump()
             after['broadcast_handlers'] = len(self.handler_calls) - n
+            # the same for the process recreated from its (terminal) checkpoint with a communicator
+            try:
+                comm_obj = self.proc._communicator
+                clone = plumpy.Bundle(self.proc).unbundle(plumpy.LoadSaveContext(loop=self.drv.loop, communicator=comm_obj))
+                seen = []
+                for name in ('pause', 'play', 'kill'):
+                    setattr(clone, name, (lambda *a, _n=name, **k: seen.append(_n) or False))
+                try:
+                    self.ctl.pause_process(clone.pid, 'late-clone')
+                    after['clone_rpc'] = 'routed'
+                except kiwipy.UnroutableError:
+                    after['clone_rpc'] = 'unroutable'
+                self.ctl.kill_all('late-clone')
+                self.drv.pump()
+                after['clone_handlers'] = len(seen)
+            except BaseException as exc:  # noqa: BLE001
+                after['clone_error'] = '%s: %s' % (type(exc).__name__, exc)
         return {'replies': replies, 'handler_calls': calls, 'status_calls': self.status_calls, 'announced': _jsonable(self.announced), 'after': after,
                 'receiver_errors': list(self.base.receiver_errors)}
 
@@ -328,6 +345,11 @@ def run_case(case):
         if ex['after'].get('broadcast_handlers'):
             viol.append(V('terminated-still-subscribed', 'terminated-still-subscribed', '%s: a terminated process handled %d broadcast messages' % (
                 label, ex['after']['broadcast_handlers'])))
+        if 'clone_rpc' in ex['after']:
+            obs['recreated_terminal_checks'] = 1
+            if ex['after']['clone_rpc'] != 'unroutable' or ex['after'].get('clone_handlers'):
+                viol.append(V('terminated-still-routable', 'terminated-still-routable:recreated', '%s: the process recreated from its terminal checkpoint '
+                              '(with a communicator) still receives messages: %s' % (label, ex['after'])))
     if case['kind'] == 'bfault':
         obs['broadcast_faults'] = 1
         obs['tolerated_kinds'][list(case['bfail'].values())[0]] = 1
